@@ -199,6 +199,9 @@ def _replay(args):
                         if (step + len(beh['mols'])) % 3 == 0:
                             with open(lay.itp[o['sp']]) as fh_top:        # an opened file instead of a path
                                 system.add_ftop(fh_top)
+                        elif (step + len(beh['mols'])) % 3 == 1:
+                            from gaddlemaps.components import MoleculeTop    # an already parsed topology
+                            system.add_molecule_top(MoleculeTop(lay.itp[o['sp']]))
                         else:
                             system.add_ftop(lay.itp[o['sp']])
                         ok = True
@@ -279,7 +282,11 @@ def _work_random(args):
                 system = System(lay.gro)
                 for sp in order:
                     try:
-                        system.add_ftop(lay.itp[sp])
+                        if rng.random() < 0.35:
+                            from gaddlemaps.components import MoleculeTop
+                            system.add_molecule_top(MoleculeTop(lay.itp[sp]))
+                        else:
+                            system.add_ftop(lay.itp[sp])
                         ok = True
                     except OSError:
                         ok = False
